@@ -134,17 +134,12 @@ func UpdatePathAttrs4ByteAs(logger *slog.Logger, msg *bgp.BGPUpdate) {
 		return
 	}
 
+	// confederation segments do not count (RFC 5065 5.3); the loop below keeps
+	// them for free when they lead the path or follow a kept segment (RFC 6793 4.2.3)
 	asLen := 0
-	asConfedLen := 0
 	asParams := make([]bgp.AsPathParamInterface, 0, len(asAttr.Value))
 	for _, param := range asAttr.Value {
 		asLen += param.ASLen()
-		switch param.GetType() {
-		case bgp.BGP_ASPATH_ATTR_TYPE_CONFED_SET:
-			asConfedLen++
-		case bgp.BGP_ASPATH_ATTR_TYPE_CONFED_SEQ:
-			asConfedLen += len(param.GetAS())
-		}
 		asParams = append(asParams, param)
 	}
 
@@ -177,13 +172,13 @@ func UpdatePathAttrs4ByteAs(logger *slog.Logger, msg *bgp.BGPUpdate) {
 		}
 	}
 
-	if asLen+asConfedLen < as4Len {
+	if asLen < as4Len {
 		logger.Warn("AS4_PATH is longer than AS_PATH. ignore AS4_PATH",
 			slog.String("Topic", "Table"))
 		return
 	}
 
-	keepNum := asLen + asConfedLen - as4Len
+	keepNum := asLen - as4Len
 
 	newParams := make([]bgp.AsPathParamInterface, 0, len(asAttr.Value))
 	for _, param := range asParams {
